@@ -261,6 +261,17 @@ def run_check(prop, tier, seed):
             inconcl.append('%s: %s' % (r['id'], x))
         outputs.update(r.get('outputs') or []); gwrites.update(r.get('global_writes') or []); greads.update(r.get('mutable_global_reads') or [])
 
+    gstats = {}
+    for r in results:
+        g = gof[r['id']]['name']
+        d = gstats.setdefault(g, dict(jobs=0, paths=0, wall_s=0.0, solver_s=0.0, queries=0))
+        d['jobs'] += 1; d['paths'] += r.get('paths', 0); d['wall_s'] += r.get('wall_s', 0); d['solver_s'] += r.get('solver_s', 0)
+        d['queries'] += r.get('sat', 0) + r.get('unsat', 0) + r.get('unknown', 0)
+    for g, d in gstats.items():
+        d['wall_s'] = round(d['wall_s'], 1); d['solver_s'] = round(d['solver_s'], 1)
+        if os.environ.get('VERIF_VERBOSE'):
+            log('  group %-28s jobs=%-5d paths=%-7d cpu=%.0fs solver=%.0fs' % (g, d['jobs'], d['paths'], d['wall_s'], d['solver_s']))
+
     # vacuity: every expected assertion must have been reached on a feasible path
     for g in groups:
         for a in g.get('asserts', []):
@@ -272,7 +283,7 @@ def run_check(prop, tier, seed):
     cands = []
     for r in results:
         g = gof[r['id']]
-        for v in r.get('violations') or []:
+        for v in (r.get('violations') or []) if spec.get('assert_violations', True) else []:
             cands.append(dict(kind='assert', job=r, group=g, v=v))
         if g.get('panics_violate', spec.get('panics_violate', False)):
             for v in r.get('panic_witnesses') or []:
@@ -284,7 +295,7 @@ def run_check(prop, tier, seed):
         step = max(1, len(ws) // max(1, nwit // max(1, len(asserts))))
         for jid, w in ws[::step]:
             wits.append(dict(kind='witness', assert_id=a, job=byid[jid], group=gof[jid], v={'vector': w, 'assert': a}))
-    runner = Runner(work)
+    runner = Runner(work, race=bool(spec.get('race')))
     reqs = []
     for i, c in enumerate(cands + wits):
         c['rid'] = 'r%d' % i
@@ -312,6 +323,8 @@ def run_check(prop, tier, seed):
             ok = bool(rp.get('panic')) or bool(rp.get('crash'))
         else:
             ok = aid in (rp.get('failed') or [])
+            if not ok and spec.get('race') and (rp.get('race') or 'same-result-concurrently' in (rp.get('failed') or [])):
+                ok = True   # frame breach confirmed natively as a data race / differing concurrent result
             if not ok and (rp.get('panic') or rp.get('crash')):
                 # the native run panicked before reaching the assertion: a C03 matter, not this
                 # property's; the counterexample is not confirmed for this assertion
@@ -342,6 +355,11 @@ def run_check(prop, tier, seed):
             continue
         if rp.get('mismatch'):
             inconcl.append('witness replay mismatch (%s) in %s' % (rp['mismatch'], c['job']['id']))
+        elif spec.get('race') and rp.get('race'):
+            validated += 1
+            sig = '%s|data-race|%s' % (c['job']['harness'], (rp.get('notes') or {}).get('text', ''))
+            confirmed.setdefault(sig, dict(sig=sig, assert_id='no-data-race', harness=c['job']['harness'], args=c['job']['args'], vector=c['v']['vector'],
+                                           notes=rp.get('notes') or {}, panic=None, panic_at=None, count=0, race_report=(rp.get('output') or '')[:1500]))['count'] += 1
         elif rp.get('panic') or rp.get('crash'):
             inconcl.append('native run panics on a reachability witness the engine completed (%s): %s' % (c['job']['id'], (rp.get('panic') or rp.get('crash'))[:200]))
         elif rp.get('assume_failed'):
@@ -423,6 +441,7 @@ def run_check(prop, tier, seed):
             counterexamples_replayed=len(cands),
             panic_paths=dict(total=agg['panics'], sites=panic_sites, counted_as_violation=bool(spec.get('panics_violate', False))),
             partition_check=partition,
+            group_stats=gstats,
             known_findings_seen=[k.get('what') for k, _ in known_seen],
             inconclusive=inconcl[:20],
             stubs=spec.get('stubs', STUBS),
